@@ -71,6 +71,192 @@ def conj(test, f=None, depth=0):
     return [test]
 
 
+def _key_store(key, f):
+    """Stores under a constant key into a dict the function received."""
+    def pred(tgt, _stgt):
+        return isinstance(tgt, ast.Subscript) and isinstance(
+            tgt.slice, ast.Constant) and tgt.slice.value == key and \
+            isinstance(tgt.value, ast.Name) and tgt.value.id in f.params
+    return pred
+
+
+def _nows(e):
+    return src(e).replace(' ', '') if e is not None else None
+
+
+def _update_paths(ctx, R, u, guards, lookups, mine, parent, puuid):
+    """The update rules, decided per path through _update_in_db (values
+    propagated along each path: it does not matter where in the text the
+    stores stand or through which locals / tuples the values travel)."""
+    from psa import pathval
+    paths = pathval.paths_of(u, keep=lambda v: any(v is x for x in lookups))
+    normal = [p for p in paths if p.end != 'raise']
+    LP = "updates['parent_provider_id']"
+    LR = "updates['root_provider_id']"
+    cls = {'re': [], 'un': [], 'keep': [], 'other': []}
+    info = {}
+    for p in normal:
+        pv = p.stored(_key_store('parent_provider_id', u))
+        rv = p.stored(_key_store('root_provider_id', u))
+        if pv is None and rv is None:
+            k = 'keep'
+        elif pv is None or rv is None:
+            k = 'other'
+        elif _nows(pv[1]) == '%s.id' % parent and \
+                _nows(rv[1]) == '%s.root_id' % parent:
+            k = 're'
+        elif isinstance(pv[1], ast.Constant) and pv[1].value is None and \
+                _nows(rv[1]) == '%s.id' % mine:
+            k = 'un'
+        else:
+            k = 'other'
+        cls[k].append(p)
+        info[id(p)] = (pv, rv)
+    # which side of "a parent was given" the path is on
+    def given(p):
+        for t, pol in p.cond_srcs():
+            t = t.replace(' ', '')
+            if t == '%sisnotNone' % puuid:
+                return pol
+            if t == '%sisNone' % puuid:
+                return not pol
+        return None
+    sides = all(given(p) is True for p in cls['re']) and all(
+        given(p) is False for p in cls['un'])
+    R.ob('R9.2', 'update:stores-classified',
+         bool(cls['re']) and bool(cls['un']) and not cls['other'] and sides,
+         'on every path that gives the provider a parent (parent.id, '
+         'parent.root_id) is stored, on every path that detaches it '
+         '(None, own id), and no path stores anything else',
+         ['%s: parent=%s root=%s when %s' % (
+             k, info[id(p)][0] and src(info[id(p)][0][1]),
+             info[id(p)][1] and src(info[id(p)][1][1]),
+             [t for t, pol in p.cond_srcs() if pol][-2:])
+          for k in ('re', 'un', 'other') for p in cls[k]][:6], func=u)
+    g_none = [x for x in guards if src(x.test).replace(' ', '') ==
+              '%sisNone' % parent]
+    g_loop = []
+    for x in guards:
+        t = x.test
+        if isinstance(t, ast.Compare) and len(t.ops) == 1 and isinstance(
+                t.ops[0], ast.In) and src(t.left) == puuid:
+            coll = resolve(u, t.comparators[0])
+            # {rp.uuid for rp in <subtree>}
+            if isinstance(coll, (ast.SetComp, ast.ListComp,
+                                 ast.GeneratorExp)) and src(
+                    coll.elt).endswith('.uuid') and not \
+                    coll.generators[0].ifs:
+                it = coll.generators[0].iter
+                subs = [it]
+                if isinstance(it, ast.Name):
+                    # definitions of the iterated name reaching the
+                    # statement that builds the uuid set
+                    at = x
+                    if isinstance(t.comparators[0], ast.Name):
+                        dd = c05.single_def(u, t.comparators[0].id)
+                        at = dd if dd is not None else x
+                    subs = [v for _st, v in ctx.effects.reaching_defs(
+                        u, it.id, at)]
+                if subs and all(
+                        isinstance(sub, ast.Call) and isinstance(
+                            sub.func, ast.Attribute) and
+                        sub.func.attr == 'get_subtree' and
+                        src(sub.func.value) == 'self' for sub in subs):
+                    g_loop.append(x)
+    want = sorted(['%s.parent_idisnotNone' % mine,
+                   '%s.parent_id!=%s.id' % (mine, parent),
+                   'notallow_reparenting'])
+    g_gate = [x for x in guards if sorted(
+        src(c).replace(' ', '') for c in conj(x.test, u)) == want]
+
+    def passed(p, gs):
+        return any(p.took(g) is not None for g in gs)
+    for lab, idx in ((LR, 1), (LP, 0)):
+        node = info[id(cls['re'][0])][idx][0] if cls['re'] else None
+        for nm, gs, exp in (
+                ('unknown-parent-rejected', g_none,
+                 'an unknown parent raises before the link is stored'),
+                ('loop-rejected', g_loop,
+                 'a parent inside self.get_subtree() raises before the link '
+                 'is stored'),
+                ('reparent-gated', g_gate,
+                 'moving an already parented provider to another parent '
+                 'raises unless allow_reparenting')):
+            bad = [p for p in cls['re'] if not passed(p, gs)]
+            R.ob('R9.1', 'update:%s@%s' % (nm, lab),
+                 bool(gs) and bool(cls['re']) and not bad, exp +
+                 ' (on every path that stores the new parent)',
+                 'guards recognised: %d; paths without it: %s' % (
+                     len(gs), [[t for t, _pl in p.cond_srcs()][-3:]
+                               for p in bad][:2]), func=u, node=node)
+    # un-parent gate
+    inner = [x for x in guards if src(x.test).replace(' ', '') ==
+             'notallow_reparenting']
+    for lab, idx in ((LR, 1), (LP, 0)):
+        node = info[id(cls['un'][0])][idx][0] if cls['un'] else None
+        bad = []
+        for p in cls['un']:
+            had = any(t.replace(' ', '') == '%s.parent_idisnotNone' % mine
+                      and pol for t, pol in p.cond_srcs())
+            if not (had and passed(p, inner)):
+                bad.append(p)
+        R.ob('R9.1', 'update:unparent-gated@%s' % lab,
+             bool(cls['un']) and bool(inner) and not bad,
+             'detaching a parented provider raises unless '
+             'allow_reparenting (on every path that stores the detachment)',
+             [[t for t, _pl in p.cond_srcs()][-3:] for p in bad][:2],
+             func=u, node=node)
+    # subtree rewrite: on every path that moves the provider, a loop over
+    # self.get_subtree() writes the root stored for the provider itself to
+    # each member, keyed by the member's id
+    okw = bool(cls['re']) and bool(cls['un'])
+    why = []
+    for p in cls['re'] + cls['un']:
+        rv = info[id(p)][1][1]
+        good = False
+        for lp, it in p.loops:
+            if not (isinstance(lp, ast.For) and isinstance(
+                    lp.target, ast.Name)):
+                continue
+            if not (isinstance(it, ast.Call) and isinstance(
+                    it.func, ast.Attribute) and it.func.attr ==
+                    'get_subtree' and src(it.func.value) == 'self'):
+                continue
+            dicts = [n for n in own_nodes_of(lp) if isinstance(n, ast.Dict)
+                     and any(isinstance(k, ast.Constant) and k.value ==
+                             'root_provider_id' for k in n.keys)]
+            if len(dicts) != 1:
+                continue
+            d = dicts[0]
+            val = [v for k, v in zip(d.keys, d.values) if isinstance(
+                k, ast.Constant) and k.value == 'root_provider_id'][0]
+            seen = p.value_at(C.stmt_of(d), val)
+            by_id = any(isinstance(k, ast.keyword) and k.arg == 'id'
+                        and src(k.value) == '%s.id' % lp.target.id
+                        for c_ in own_nodes_of(lp)
+                        if isinstance(c_, ast.Call)
+                        for k in c_.keywords)
+            jumps = [x for x in own_nodes_of(lp)
+                     if isinstance(x, (ast.Continue, ast.Break))]
+            if seen is not None and _nows(seen) == _nows(rv) and by_id \
+                    and not jumps:
+                good = True
+            else:
+                why.append('loop writes %s for stored root %s, keyed by '
+                           'loop provider: %s' % (
+                               seen is not None and src(seen), src(rv),
+                               by_id))
+        if not good:
+            okw = False
+            if not p.loops:
+                why.append('no loop on the path')
+    R.ob('R9.2', 'update:subtree-root-rewritten', okw,
+         'every provider of self.get_subtree() receives the same new '
+         'root that is stored for the moved provider (on every path that '
+         'moves it)', why[:3] or 'paths: %d re-parent, %d un-parent' % (
+             len(cls['re']), len(cls['un'])), func=u)
+
+
 def run(ctx, R):
     prog = ctx.prog
     # ------------------------------------------------------------ create
@@ -159,16 +345,15 @@ def run(ctx, R):
          ctx.effects.scope_kind(u) == 'writer',
          '_update_in_db is one writer transaction', '', func=u,
          nontrivial=False)
-    pst = dict_stores(u, 'parent_provider_id')
-    rst = dict_stores(u, 'root_provider_id')
     guards = oae_ifs(ctx, u)
-    # classify branches: re-parent (value from looked-up parent) vs un-parent
+    # classify paths: re-parent (value from looked-up parent) vs un-parent
     lookups = [s.node for s in ctx.cg.calls_in(u)
                if any(x.qbase == IDS for x in s.callees)]
     mine = parent = None
     for lk in lookups:
         st = C.stmt_of(lk)
-        if not isinstance(st, ast.Assign):
+        if not isinstance(st, ast.Assign) or not isinstance(
+                st.targets[0], ast.Name) or len(lk.args) < 2:
             continue
         nm = st.targets[0].id
         if src(lk.args[1]) == 'self.uuid':
@@ -182,137 +367,7 @@ def run(ctx, R):
                                                              for x in lookups],
          func=u)
     if okl:
-        re_p = [s for s in pst if src(resolve(u, s.value)) == '%s.id' % parent]
-        un_p = [s for s in pst if isinstance(s.value, ast.Constant)
-                and s.value.value is None]
-        re_r = [s for s in rst if src(resolve(u, s.value)) ==
-                '%s.root_id' % parent]
-        un_r = [s for s in rst if src(resolve(u, s.value)) == '%s.id' % mine]
-        R.ob('R9.2', 'update:stores-classified',
-             len(re_p) == 1 and len(un_p) == 1 and len(re_r) == 1 and
-             len(un_r) == 1 and len(pst) == 2 and len(rst) == 2,
-             're-parent stores (parent.id, parent.root_id) and un-parent '
-             'stores (None, own id)',
-             [src(s) for s in pst + rst], func=u)
-        g_none = [x for x in guards if src(x.test).replace(' ', '') ==
-                  '%sisNone' % parent]
-        g_loop = []
-        for x in guards:
-            t = x.test
-            if isinstance(t, ast.Compare) and len(t.ops) == 1 and isinstance(
-                    t.ops[0], ast.In) and src(t.left) == puuid:
-                coll = resolve(u, t.comparators[0])
-                # {rp.uuid for rp in <subtree>}
-                if isinstance(coll, (ast.SetComp, ast.ListComp,
-                                     ast.GeneratorExp)) and src(
-                        coll.elt).endswith('.uuid') and not \
-                        coll.generators[0].ifs:
-                    it = coll.generators[0].iter
-                    subs = [it]
-                    if isinstance(it, ast.Name):
-                        # definitions of the iterated name reaching the
-                        # statement that builds the uuid set
-                        at = x
-                        if isinstance(t.comparators[0], ast.Name):
-                            dd = c05.single_def(u, t.comparators[0].id)
-                            at = dd if dd is not None else x
-                        subs = [v for _st, v in ctx.effects.reaching_defs(
-                            u, it.id, at)]
-                    if subs and all(
-                            isinstance(sub, ast.Call) and isinstance(
-                                sub.func, ast.Attribute) and
-                            sub.func.attr == 'get_subtree' and
-                            src(sub.func.value) == 'self' for sub in subs):
-                        g_loop.append(x)
-        want = sorted(['%s.parent_idisnotNone' % mine,
-                       '%s.parent_id!=%s.id' % (mine, parent),
-                       'notallow_reparenting'])
-        g_gate = [x for x in guards if sorted(
-            src(c).replace(' ', '') for c in conj(x.test, u)) == want]
-        for s in re_p + re_r:
-            lab = src(s.targets[0])
-            R.ob('R9.1', 'update:unknown-parent-rejected@%s' % lab,
-                 bool(g_none) and gu.dominates(g_none[0], s),
-                 'an unknown parent raises before the link is stored',
-                 'guards: %s' % [src(x.test) for x in guards][:5], func=u,
-                 node=s)
-            R.ob('R9.1', 'update:loop-rejected@%s' % lab,
-                 bool(g_loop) and gu.dominates(g_loop[0], s),
-                 'a parent inside self.get_subtree() raises before the link '
-                 'is stored', 'loop guards: %d' % len(g_loop), func=u,
-                 node=s)
-            R.ob('R9.1', 'update:reparent-gated@%s' % lab,
-                 bool(g_gate) and gu.dominates(g_gate[0], s),
-                 'moving an already parented provider to another parent '
-                 'raises unless allow_reparenting',
-                 [src(x.test) for x in guards][:5], func=u, node=s)
-        # un-parent gate
-        for s in un_p + un_r:
-            ifs = C.guarding_ifs(s, u.node)
-            conds = [src(i.test).replace(' ', '') for i, br in ifs
-                     if br == 'body']
-            inner = [x for x in guards if src(x.test).replace(' ', '') ==
-                     'notallow_reparenting' and gu.dominates(x, s)]
-            okg = '%s.parent_idisnotNone' % mine in conds and bool(inner)
-            R.ob('R9.1', 'update:unparent-gated@%s' % src(s.targets[0]), okg,
-                 'detaching a parented provider raises unless '
-                 'allow_reparenting', conds, func=u, node=s)
-        # subtree rewrite
-        loops = [x for x in own_nodes(u.node) if isinstance(x, ast.For)
-                 and isinstance(x.target, ast.Name)]
-        okw = False
-        why = 'no rewrite loop'
-        for lp in loops:
-            itn = src(lp.iter)
-            defs = [n.value for n in own_nodes(u.node)
-                    if isinstance(n, ast.Assign) and any(
-                        isinstance(t, ast.Name) and t.id == itn
-                        for t in n.targets)]
-            subs = [d for d in defs if isinstance(d, ast.Call) and isinstance(
-                d.func, ast.Attribute) and d.func.attr == 'get_subtree']
-            empties = [d for d in defs if isinstance(d, ast.List)
-                       and not d.elts]
-            if len(subs) != 2 or len(defs) != len(subs) + len(empties):
-                continue
-            # data = {'root_provider_id': X}; db.update(data)
-            dicts = [n for n in own_nodes_of(lp) if isinstance(n, ast.Dict)
-                     and any(isinstance(k, ast.Constant) and k.value ==
-                             'root_provider_id' for k in n.keys)]
-            if len(dicts) != 1:
-                why = 'rewrite dict'
-                continue
-            newroot = dicts[0].values[0]
-            # X is assigned the same value as updates['root_provider_id']
-            # in each branch
-            nr_defs = [n for n in own_nodes(u.node)
-                       if isinstance(n, ast.Assign) and any(
-                           isinstance(t, ast.Name) and t.id == src(newroot)
-                           for t in n.targets) and not (
-                               isinstance(n.value, ast.Constant)
-                               and n.value.value is None)]
-            vals = sorted(src(resolve(u, n.value)) for n in nr_defs)
-            want_v = sorted(['%s.root_id' % parent, '%s.id' % mine])
-            same_branch = all(any(
-                C.guarding_ifs(n, u.node) == C.guarding_ifs(s, u.node)
-                and src(resolve(u, n.value)) == src(resolve(u, s.value))
-                for s in rst) for n in nr_defs)
-            by_id = any(isinstance(k, ast.keyword) and k.arg == 'id'
-                        and src(k.value) == '%s.id' % lp.target.id
-                        for c_ in own_nodes_of(lp)
-                        if isinstance(c_, ast.Call)
-                        for k in c_.keywords)
-            okw = vals == want_v and same_branch and by_id and not [
-                x for x in own_nodes_of(lp)
-                if isinstance(x, (ast.Continue, ast.Break))]
-            why = 'new root values %s, keyed by loop provider: %s' % (
-                vals, by_id)
-            # the loop subtree is the one the loop check used
-            if okw and g_loop:
-                pass
-        R.ob('R9.2', 'update:subtree-root-rewritten', okw,
-             'every provider of self.get_subtree() receives the same new '
-             'root that is stored for the moved provider', why, func=u)
-        # the loop runs on all paths after the stores
+        _update_paths(ctx, R, u, guards, lookups, mine, parent, puuid)
         R.count('R9.2', 1, 1)
     # save() forwards the flag; handler binds it to 1.37
     sv = prog.func(RPM + ':ResourceProvider.save')
